@@ -16,6 +16,8 @@ mkdir -p "$BIN"
 # scratch worktree that carries a seeded change, so that /repo itself is never touched by an evaluation).
 REPO="${VERIF_REPO:-/repo}"
 MODFILE=()
+# VERIF_GOBUILD_EXTRA: extra go build flags (scripts/coverage.sh passes -cover -coverpkg=... for the workload survey)
+EXTRA=(${VERIF_GOBUILD_EXTRA:-})
 exec 9>"$VERIF_DIR/.build/lock"
 flock 9
 cp "$REPO/go.sum" "$VERIF_DIR/harness/go.sum.repo" 2>/dev/null
@@ -27,12 +29,12 @@ if [ "$REPO" != /repo ]; then
   MODFILE=(-modfile="$VERIF_DIR/.build/harness.mod")
 fi
 for c in dcat dgrep dmap dtail dtailhealth; do
-  (cd "$REPO" && go build -tags verif -o "$BIN/$c" "./cmd/$c") || exit 1
+  (cd "$REPO" && go build "${EXTRA[@]}" -tags verif -o "$BIN/$c" "./cmd/$c") || exit 1
 done
 (cd "$VERIF_DIR/harness" && go build "${MODFILE[@]}" -tags verif -o "$BIN/vcheck" ./cmd/vcheck) || exit 1
 WORKERS="server c03 c04 mapr c08 c10 c16 c18"
 for w in $WORKERS; do
-  if ! (cd "$VERIF_DIR/harness" && go build "${MODFILE[@]}" -tags "verif w_$w" -o "$BIN/vcheck-w-$w" ./cmd/vcheck) 2>"$BIN/vcheck-w-$w.builderr"; then
+  if ! (cd "$VERIF_DIR/harness" && go build "${MODFILE[@]}" "${EXTRA[@]}" -tags "verif w_$w" -o "$BIN/vcheck-w-$w" ./cmd/vcheck) 2>"$BIN/vcheck-w-$w.builderr"; then
     echo "WARNING: worker $w does not build against the current tree (its in-process tier will be skipped):"
     head -5 "$BIN/vcheck-w-$w.builderr"
     rm -f "$BIN/vcheck-w-$w"
